@@ -159,6 +159,15 @@ def runUdp (ws : List String) : String :=
       let w := pollAll u.w
       let snaps := ((w.socks.map (·.events.length)) :: u.snaps).reverse
       s!"st=[{",".intercalate u.sts.reverse}] {" ".intercalate (showGroups w snaps)}"
+  | ["linklocal"] =>
+    -- two listeners of an IPv6 world; ping 1 -> 0, the reply through the reported endpoint 0 -> 1
+    match udpRun ["v6", "L", "L", "f1>0:4:1", "w", "r0>1:4:2", "w"] with
+    | none => "model: ops rejected"
+    | some u =>
+      let w := pollAll u.w
+      let at0 := (w.socks[0]?.map (·.events.length)).getD 0
+      let at1 := (w.socks[1]?.map (·.events.length)).getD 0
+      s!"ping={at0} pong={at1}"
   | ["mcast"] =>
     -- two listeners; the group address and the unicast address of socket 0 are one socket in the model: a
     -- probe 1 -> 0, the reply 0 -> 1 through the reported endpoint, then eight sizes 1 -> 0
